@@ -120,6 +120,13 @@ def run(tier, seed):
             if out[0] == 'val':
                 w = out[1]
                 T = {'TStr': str, 'TBool': bool, 'TInt': int}.get(tname, float if 'TFloat' in tname else None)
+                # ... and a definition that produced a value of ANOTHER type (blank answers aside) was not stored at all
+                Tdecl = T if T is not None else E1
+                if v is not None and not (isinstance(v, str) and v.strip() == '') and type(v) is not Tdecl:
+                    ck.violation('C12:wrong-type-accepted:%s' % tname.split()[0].strip('('),
+                                 'a %s line whose definition produced %r (%s) stored %r instead of being rejected with an error naming the line' % (
+                                     tname, v, type(v).__name__, w),
+                                 {'kind': 'failing-input', 'type': tname, 'returned': repr(v), 'returned_type': type(v).__name__, 'stored': repr(w)}, found=True)
                 if T is not None and type(w) is not T:
                     ck.violation('C12:stored-value-has-another-type', '%s line stored %r (%s)' % (tname, w, type(w).__name__),
                                  {'kind': 'failing-input', 'type': tname, 'returned': repr(v), 'stored': repr(w)}, found=True)
